@@ -21,8 +21,8 @@ import (
 func init() {
 	register("C04", propDef{
 		header:     "From KV Require Import Corr.C04.\nOpen Scope string_scope.\n",
-		caseType:   "case04",
-		mismatchFn: "mismatches04",
+		caseType:   "case04x",
+		mismatchFn: "mismatches04x",
 		run:        runC04,
 		replay:     replayC04,
 	})
@@ -855,6 +855,10 @@ type case04 struct {
 	Prepend bool   `json:"prepend"`
 	Domain  string `json:"domain,omitempty"` // "D": pure grammar, unique keys; "Dnull": D + a null-valued target field; "": outside
 	RefDom  bool   `json:"refdom,omitempty"` // inside the domain of the comparison with the k8s reference implementation
+	// identity-layer cases (harness/c04ident.go): Level != "" ("resource", "krusty-patches", "krusty-psm")
+	Level     string `json:"level,omitempty"`
+	AllowName bool   `json:"allow_name,omitempty"`
+	AllowKind bool   `json:"allow_kind,omitempty"`
 	Note    string `json:"note,omitempty"`
 }
 
@@ -945,7 +949,7 @@ func caseTerm04(c case04) (term string, cls string, out *kyaml.RNode, ok bool) {
 		}
 		res = r
 	}
-	term = fmt.Sprintf("(mk04 %s %s %s %s %s %s %s %s %s)", pt, tt, coqBool(c.Infer), coqBool(c.Prepend),
+	term = fmt.Sprintf("(CM (mk04 %s %s %s %s %s %s %s %s %s))", pt, tt, coqBool(c.Infer), coqBool(c.Prepend),
 		mStrList(kyaml.AssociativeSequenceKeys), sch, mStrList(ns), cls, res)
 	return term, cls, out, true
 }
@@ -1046,11 +1050,23 @@ func runC04(r *Run, rng *Rng, tier string) error {
 	// replay seed 1 shifted by one case): decorrelate by forking once.
 	rng = rng.Fork()
 	for _, c := range loadCorpus04() {
+		if c.Level != "" {
+			runIdent04(r, c)
+			continue
+		}
 		runOne04(r, c, nil, kindSpec{"corpus", ""})
 	}
 	for i := 0; i < nModel; i++ {
 		c, ops, ks := genCase04(rng.Fork())
 		runOne04(r, c, ops, ks)
+	}
+	// identity layer: Resource.ApplySmPatch / krusty builds
+	nIdent := 400
+	if tier == "thorough" {
+		nIdent = 4000
+	}
+	for i := 0; i < nIdent; i++ {
+		runIdent04(r, genIdent04(rng.Fork()))
 	}
 	r.header += internHeader()
 	r.shard = 100
@@ -1112,6 +1128,18 @@ func replayC04(path string) (bool, string, error) {
 	}
 	if err := json.Unmarshal(data, &rp); err != nil {
 		return false, "", err
+	}
+	if rp.Case.Level != "" {
+		known := knownClasses("C04")
+		detail := "identity case, level " + rp.Case.Level
+		bad := 0
+		for _, v := range lawsIdent04(rp.Case) {
+			if !known[v.Class] {
+				bad++
+			}
+			detail += fmt.Sprintf("\nLAW %s class=%s: %s", v.Law, v.Class, v.Detail)
+		}
+		return bad > 0, detail, nil
 	}
 	cls, out, msg := exec04(rp.Case)
 	res := "<nil>"
